@@ -162,6 +162,18 @@ func registerIntrinsics(e *Engine) {
 		ps.inputs = append(ps.inputs, &Input{Name: name, Kind: "bool", Terms: []*smt.Term{v}})
 		return sym{t: v, k: types.Bool, ps: ps}
 	}
+	in["zz.Deep"] = func(fr *frame, a []value) value {
+		ps := fr.i.ps
+		if _, seen := ps.store["deep-recorded"]; !seen {
+			ps.store["deep-recorded"] = true
+			c := int64(0)
+			if fr.i.eng.Cfg.Deep {
+				c = 1
+			}
+			ps.inputs = append(ps.inputs, &Input{Name: "deep", Kind: "choice", Conc: c})
+		}
+		return fr.i.eng.Cfg.Deep
+	}
 	in["zz.Choice"] = func(fr *frame, a []value) value {
 		ps := fr.i.ps
 		name := ps.uniq(mustStr(a[0], "Choice name"))
